@@ -63,6 +63,9 @@ fn call_name(c: usize) -> String {
         15 => "allow_method(GET)".into(),
         16 => "allow_method(PUT)".into(),
         17 => "allow_method(PATCH)".into(),
+        19 => "set_content_length(None)".into(),
+        20 => "set_content_length(Some(7))".into(),
+        21 => "set_content_length(Some(current body length))".into(),
         _ => "set_body(64KiB)".into(),
     }
 }
@@ -177,9 +180,22 @@ fn apply(r: &mut Response, s: &mut Shadow, c: usize) {
             r.allow_method(Method::Put);
             s.allow.push("PUT");
         }
-        _ => {
+        17 => {
             r.allow_method(Method::Patch);
             s.allow.push("PATCH");
+        }
+        19 => {
+            r.set_content_length(None);
+            s.length = None;
+        }
+        20 => {
+            r.set_content_length(Some(7));
+            s.length = Some(7);
+        }
+        _ => {
+            let n = s.body.as_ref().map(|b| b.len()).unwrap_or(0);
+            r.set_content_length(Some(n as i32));
+            s.length = Some(n);
         }
     }
 }
@@ -226,19 +242,23 @@ pub fn build(version: u8, code_idx: usize, calls: &[usize]) -> (Response, Vec<u8
     // defaults the property does not pin (server identity, content type) are taken from the output
     let mut out = Vec::new();
     let _ = r.write_all(&mut out);
-    if let crate::model::RespParse::Complete(v) = crate::model::read_response(&out) {
-        if s.server.is_none() {
-            if let Some(sv) = v.header("Server") {
-                if !sv.contains('\r') && !sv.contains('\n') {
-                    s.server = Some(sv.to_string());
-                }
+    // (read line by line: an explicit length that differs from the body makes the response incomplete
+    // for a framing reader, which must not hide the defaults)
+    let head_end = out.windows(4).position(|w| w == b"\r\n\r\n").unwrap_or(out.len());
+    for line in out[..head_end].split(|b| *b == b'\n') {
+        let line = line.strip_suffix(b"\r").unwrap_or(line);
+        if let Some(v) = line.strip_prefix(b"Server: ") {
+            if s.server.is_none() && !v.contains(&b'\r') {
+                s.server = Some(String::from_utf8_lossy(v).to_string());
             }
         }
-        if s.ctype.is_none() {
-            match v.header("Content-Type") {
-                Some("text/plain") => s.ctype = Some("text/plain"),
-                Some("application/json") => s.ctype = Some("application/json"),
-                _ => {}
+        if let Some(v) = line.strip_prefix(b"Content-Type: ") {
+            if s.ctype.is_none() {
+                match v {
+                    b"text/plain" => s.ctype = Some("text/plain"),
+                    b"application/json" => s.ctype = Some("application/json"),
+                    _ => {}
+                }
             }
         }
     }
@@ -333,6 +353,12 @@ fn check_concat(ctx: &mut Ctx, parts: &[(u8, usize, Vec<usize>)]) -> bool {
         let _ = r.write_all(&mut all);
         shadows.push(s);
     }
+    if shadows.iter().any(|s| s.length != s.body.as_ref().map(|b| b.len()).filter(|n| *n > 0 || s.length.is_some())) {
+        // a length the caller set explicitly to something else than the body: the layout is still judged
+        // (check_one), but such a stream is not self-delimiting by the caller's own choice
+        ctx.rep.count("concatenations_skipped_explicit_length_differs_from_body");
+        return false;
+    }
     ctx.rep.count("concatenations_reread");
     let case = J::obj(vec![("concat", J::Arr(parts.iter().map(|(v, ci, calls)| case_json(*v, *ci, calls)).collect()))]);
     let (resps, used, err) = read_all_responses(&all);
@@ -404,12 +430,42 @@ pub fn run(ctx: &mut Ctx) {
             }
         }
     }
+    // ---- explicit lengths: exhaustive sequences (length <= 4) over the calls that touch the length lines
+    const LEN_CALLS: [usize; 8] = [0, 1, 19, 20, 21, 9, 6, 4];
+    for version in 0..2u8 {
+        for code_idx in 0..CODES.len() {
+            for len in 1..=4u32 {
+                for n in 0..(LEN_CALLS.len() as u64).pow(len) {
+                    idx += 1;
+                    if !ctx.mine(idx) {
+                        continue;
+                    }
+                    let mut x = n;
+                    let mut calls = Vec::with_capacity(len as usize);
+                    for _ in 0..len {
+                        calls.push(LEN_CALLS[(x % LEN_CALLS.len() as u64) as usize]);
+                        x /= LEN_CALLS.len() as u64;
+                    }
+                    if !calls.iter().any(|c| *c >= 19) {
+                        continue;
+                    }
+                    ctx.rep.count("builder_sequences_with_explicit_length");
+                    if check_one(ctx, version, code_idx, &calls, n % 5 == 0).is_none() && ctx.only_case.is_none() {
+                        bad += 1;
+                        if bad > 20 {
+                            return;
+                        }
+                    }
+                }
+            }
+        }
+    }
     // ---- random longer sequences (length 4..5, incl. the 64 KiB body) and concatenations of 2..8
     let n_rand = ctx.budget(30_000, 6_000_000) / ctx.nshards;
     let mut rng: Rng = ctx.rng.fork(0xC05);
     let rand_resp = |rng: &mut Rng| -> (u8, usize, Vec<usize>) {
         let len = rng.range(0, 5);
-        let calls: Vec<usize> = (0..len).map(|_| if rng.chance(1, 60) { 18 } else { rng.below(N_CALLS) }).collect();
+        let calls: Vec<usize> = (0..len).map(|_| if rng.chance(1, 60) { 18 } else if rng.chance(1, 12) { 19 + rng.below(3) } else { rng.below(N_CALLS) }).collect();
         (rng.below(2) as u8, rng.below(CODES.len()), calls)
     };
     for i in 0..n_rand {
